@@ -13,14 +13,16 @@
   by-block and long-term indexes) are functions of the primary records. Re-export is then identical.
   Each theorem comes with a concrete non-trivial state (non-vacuity) and, for the import-time balance /
   supply checks, a rejected state showing the hypothesis is needed.
-  PARTIAL: cdp, auction, hard, earn, incentive, committee, pricefeed, community, kavadist, issuance,
-  evmutil and every SDK module, JSON/protobuf serialisation, InitChain plumbing and the import order are
+  The second half (Model/GenesisMore.lean) adds kavadist, community, issuance, auction, committee, incentive
+  (one reward kind), hard, pricefeed and cdp in the same style.
+  PARTIAL: earn, evmutil and every SDK module, JSON/protobuf serialisation and InitChain plumbing are
   NOT modelled; they are only explored by the history runner (harness/cmd/c14): real export → validation →
-  InitChain on a fresh app → re-export compared module by module → common follow-up block → invariants.
+  InitChain on a fresh app → re-export compared module by module → common follow-up blocks → invariants.
 
   Only property statements live here; helper lemmas are in KavaVerif/Proofs/GenesisModels.lean.
 -/
 import KavaVerif.Proofs.GenesisModels
+import KavaVerif.Proofs.GenesisMore
 import KavaVerif.Model.BlockSafety
 set_option linter.unusedSimpArgs false
 set_option linter.unusedVariables false
@@ -186,5 +188,340 @@ example : Bep3Inv ⟨[(1, ⟨true, .open_, 500, 120, 0⟩), (2, ⟨false, .expir
 /-- the supply-accounting invariant is needed: a supply record that disagrees with the swaps is refused -/
 theorem C14_bep3_supply_mismatch_rejected :
     bep3Init (bep3Export ⟨[(1, ⟨true, .open_, 500, 120, 0⟩)], [(120, 1)], [], ⟨499, 0, 0⟩, 5000, 0⟩) = none := by decide
+
+/-! # Further modules (Model/GenesisMore.lean)
+
+  kavadist, community, issuance, auction, committee, incentive, hard, pricefeed, cdp: round trip for every state that
+  satisfies the stated invariant; "derived indexes are rebuilt" statements; rejected witnesses; and, where a module's
+  export walks its PARAMETERS instead of its store, the counterexample showing that a state whose parameters no longer
+  mention a stored record (delisted money market, deactivated price market) does not survive — the invariant is a real
+  hypothesis there, not a property of every reachable state.  For kavadist the round trip is proved INCLUDING the
+  inactive state, and the "restore the previous block time only while active" import is shown not to round-trip. -/
+
+/-! ## kavadist -/
+
+/-- export → validate → import reproduces the kavadist state — parameters AND the recorded previous block time —
+    for every reachable state, whether minting is active or not -/
+theorem C14_kavadist_roundtrip (s : KdState) (h : KdInv s) :
+    kdValidate (kdExport s) = true ∧ kdInit (kdExport s) = some s := by
+  obtain ⟨hp, ht⟩ := h
+  have hv : kdValidate (kdExport s) = true := by
+    unfold kdValidate kdExport
+    simp only [Bool.and_eq_true, decide_eq_true_eq]
+    refine ⟨hp, ?_⟩
+    cases hs : s.prev with
+    | none => simp [kdDefaultPrev, goZeroTime]
+    | some t => simpa using (ht t hs).2
+  refine ⟨hv, ?_⟩
+  unfold kdInit
+  simp only [hv, Bool.not_true, Bool.false_eq_true, ite_false]
+  obtain ⟨a, ps, pv⟩ := s
+  cases pv with
+  | none => simp [kdExport]
+  | some t =>
+    have := (ht t rfl).1
+    simp [kdExport, this]
+
+/-- in particular a chain exported while minting is switched OFF keeps the time recorded while it was on -/
+theorem C14_kavadist_inactive_keeps_time (ps : List KdPeriod) (t : Int) (h : KdInv ⟨false, ps, some t⟩) :
+    kdInit (kdExport ⟨false, ps, some t⟩) = some ⟨false, ps, some t⟩ :=
+  (C14_kavadist_roundtrip _ h).2
+
+/-- re-export after import is the identical document -/
+theorem C14_kavadist_reexport (s s' : KdState) (h : KdInv s) (hi : kdInit (kdExport s) = some s') :
+    kdExport s' = kdExport s := by
+  rw [(C14_kavadist_roundtrip s h).2] at hi; cases hi; rfl
+
+/-- the "only while active" variant of the import does NOT round-trip: every reachable inactive state with a
+    recorded time comes back without it (and re-exports the default time) -/
+theorem C14_kavadist_only_when_active_loses_time (ps : List KdPeriod) (t : Int) (h : KdInv ⟨false, ps, some t⟩) :
+    kdInitOnlyWhenActive (kdExport ⟨false, ps, some t⟩) = some ⟨false, ps, none⟩ ∧
+    kdInitOnlyWhenActive (kdExport ⟨false, ps, some t⟩) ≠ some ⟨false, ps, some t⟩ ∧
+    (kdExport ⟨false, ps, none⟩).prev = kdDefaultPrev := by
+  have hv : kdValidate (kdExport ⟨false, ps, some t⟩) = true := (C14_kavadist_roundtrip _ h).1
+  have h1 : kdInitOnlyWhenActive (kdExport ⟨false, ps, some t⟩) = some ⟨false, ps, none⟩ := by
+    unfold kdInitOnlyWhenActive
+    simp only [hv, Bool.not_true, Bool.false_eq_true, ite_false]
+    simp [kdExport]
+  refine ⟨h1, ?_, rfl⟩
+  rw [h1]; intro hc; cases hc
+
+/-- … and the two chains then behave differently: once governance switches minting back on, the original mints for
+    the time since the recorded block, the variant's import mints for nothing -/
+theorem C14_kavadist_only_when_active_behaviour (ps : List KdPeriod) (t now : Int) (hnow : t < now) :
+    0 < kdElapsed (kdActivate ⟨false, ps, some t⟩) now ∧ kdElapsed (kdActivate ⟨false, ps, none⟩) now = 0 := by
+  simp [kdElapsed, kdActivate]; omega
+
+/-- non-vacuity: minting off, one period, a recorded block time -/
+example : KdInv ⟨false, [⟨1704067200, 1767225600, 1000000001547125958⟩], some 1704070000⟩ := by
+  refine ⟨by decide, ?_⟩
+  intro t ht; cases ht; exact ⟨by decide, by decide⟩
+
+/-! ## community -/
+
+theorem C14_community_roundtrip (s : CmState) (h : CmInv s) :
+    cmValidate (cmExport s) = true ∧ cmInit (cmExport s) = some s := by
+  refine ⟨h, ?_⟩
+  unfold CmInv cmValidate at h
+  simp only [Bool.and_eq_true, decide_eq_true_eq] at h
+  unfold cmInit cmExport
+  simp [h.1.1.1.1, h.1.1.1.2]
+
+example : CmInv ⟨⟨goZeroTime, 744191000000000000000000, 0⟩, 1704070000, 250000000000000000⟩ := by
+  unfold CmInv; decide
+
+/-- a negative rate is refused by the import (`SetParams` panics) -/
+theorem C14_community_negative_rate_rejected : cmInit ⟨⟨goZeroTime, -1, 0⟩, goZeroTime, 0⟩ = none := by decide
+
+/-! ## issuance -/
+
+theorem C14_issuance_roundtrip (s : IssState) (h : IssInv s) :
+    issValidate (issExport s) = true ∧ issInit (issExport s) = some s := by
+  obtain ⟨hd, hs, hv, hr⟩ := h
+  have hval : issValidate (issExport s) = true := by
+    unfold issValidate issExport
+    simp only [Bool.and_eq_true]
+    refine ⟨hd, ?_⟩
+    apply all_of_forall; intro x hx
+    simp only [Bool.and_eq_true, decide_eq_true_eq]; exact hv x hx
+  refine ⟨hval, ?_⟩
+  unfold issInit
+  simp only [hval, Bool.not_true, Bool.false_eq_true, ite_false]
+  unfold issExport
+  simp only [fromList_sorted _ hs]
+  rw [issCreateMissing_noop _ _ hr]
+
+/-- pausing the asset and switching its rate limit off changes nothing: the supply record is kept -/
+example : IssInv ⟨[⟨7, true, false⟩, ⟨9, false, true⟩], [(7, ⟨1000, 3600⟩), (9, ⟨0, 0⟩)]⟩ := by
+  refine ⟨by decide, by unfold Sorted; simp, ?_, ?_⟩
+  · intro x hx; simp only [List.mem_cons, List.mem_nil_iff, or_false] at hx
+    rcases hx with rfl | rfl <;> decide
+  · intro a ha; simp only [List.mem_cons, List.mem_nil_iff, or_false] at ha
+    rcases ha with rfl | rfl <;> decide
+
+/-- the hypothesis "every rate-limited asset has its supply record" is needed: otherwise the import creates one -/
+theorem C14_issuance_missing_supply_created :
+    issInit (issExport ⟨[⟨9, false, true⟩], []⟩) = some ⟨[⟨9, false, true⟩], [(9, ⟨0, 0⟩)]⟩ := by decide
+
+/-! ## auction -/
+
+theorem C14_auction_roundtrip (s : AucState) (macc : Int) (h : AucInv s macc) :
+    aucValidate (aucExport s) = true ∧ aucInit (aucExport s) macc = some s := by
+  obtain ⟨hs, ha, hb, hm⟩ := h
+  have hv : aucValidate (aucExport s) = true := by
+    unfold aucValidate aucExport
+    simp only [Bool.and_eq_true]
+    refine ⟨⟨?_, noDup_of_sorted _ hs⟩, ?_⟩
+    · apply all_of_forall; intro a hm'; simp only [decide_eq_true_eq]; exact (ha a hm').1
+    · apply all_of_forall; intro a hm'; simp only [decide_eq_true_eq]; exact (ha a hm').2
+  refine ⟨hv, ?_⟩
+  unfold aucInit
+  simp only [hv, Bool.not_true, Bool.false_eq_true, ite_false]
+  unfold aucExport
+  simp only [hm, bne_self_eq_false, Bool.false_eq_true, ite_false, fromList_sorted _ hs, ← hb]
+
+/-- the by-time index of the imported state is rebuilt from the auctions -/
+theorem C14_auction_index_rebuilt (s s' : AucState) (macc : Int) (h : AucInv s macc)
+    (hi : aucInit (aucExport s) macc = some s') : s'.byTime = byTimeOf s.auctions ∧ s'.byTime = s.byTime := by
+  rw [(C14_auction_roundtrip s macc h).2] at hi
+  cases hi; exact ⟨h.2.2.1, rfl⟩
+
+example : AucInv ⟨12, [(3, ⟨1704070000, 500⟩), (11, ⟨1704060000, 70⟩)], [(1704070000, 3), (1704060000, 11)]⟩ 570 := by
+  refine ⟨by unfold Sorted; simp, ?_, by decide, by decide⟩
+  intro a ha; simp only [List.mem_cons, List.mem_nil_iff, or_false] at ha
+  rcases ha with rfl | rfl <;> decide
+
+/-- the module-account check is needed: auctions not backed by the module account are refused -/
+theorem C14_auction_unbacked_rejected : aucInit (aucExport ⟨4, [(3, ⟨100, 500⟩)], [(100, 3)]⟩) 499 = none := by decide
+
+/-- an auction carrying the next id is refused by validation -/
+theorem C14_auction_id_not_below_next_rejected : aucInit ⟨3, [(3, ⟨100, 500⟩)]⟩ 500 = none := by decide
+
+/-! ## committee -/
+
+theorem C14_committee_roundtrip (s : CoState) (h : CoInv s) :
+    coValidate (coExport s) = true ∧ coInit (coExport s) = some s := by
+  obtain ⟨hc, hp, hvo, hpr, hvr⟩ := h
+  have hv : coValidate (coExport s) = true := by
+    unfold coValidate coExport
+    simp only [Bool.and_eq_true]
+    refine ⟨⟨⟨noDup_of_sorted _ hc, noDup_of_sorted _ hp⟩, ?_⟩, ?_⟩
+    · apply all_of_forall; intro p hm
+      simp only [Bool.and_eq_true, decide_eq_true_eq]; exact hpr p hm
+    · apply all_of_forall; intro v hm; exact hvr v hm
+  refine ⟨hv, ?_⟩
+  unfold coInit
+  simp only [hv, Bool.not_true, Bool.false_eq_true, ite_false]
+  unfold coExport
+  simp only [fromList_sorted _ hc, fromList_sorted _ hp, fromList_sorted _ hvo]
+
+example : CoInv ⟨8, [(1, 100), (2, 200)], [(5, (1, 77)), (7, (2, 78))], [(501, (5, 1)), (502, (5, 2)), (701, (7, 1))]⟩ := by
+  refine ⟨by unfold Sorted; simp, by unfold Sorted; simp, by unfold Sorted; simp, ?_, ?_⟩
+  · intro p hp; simp only [List.mem_cons, List.mem_nil_iff, or_false] at hp
+    rcases hp with rfl | rfl <;> decide
+  · intro v hv; simp only [List.mem_cons, List.mem_nil_iff, or_false] at hv
+    rcases hv with rfl | rfl | rfl <;> decide
+
+/-- a vote of a proposal that does not exist is refused -/
+theorem C14_committee_orphan_vote_rejected : coInit ⟨8, [(1, 100)], [(5, (1, 77))], [(601, (6, 1))]⟩ = none := by decide
+
+/-! ## incentive (one reward kind) -/
+
+/-- claims, reward indexes and accrual times are exported from the store and written back record by record; the
+    parameters play no part, so reward periods that were ended or removed keep their indexes and claims -/
+theorem C14_incentive_roundtrip (s : IncState) (h : IncInv s) :
+    incValidate (incExport s) = true ∧ incInit (incExport s) = some s := by
+  obtain ⟨ha, hi, hc, ht⟩ := h
+  have hv : incValidate (incExport s) = true := by
+    unfold incValidate incExport
+    simp only [Bool.and_eq_true]
+    refine ⟨⟨⟨?_, noDup_of_sorted _ ha⟩, noDup_of_sorted _ hi⟩, noDup_of_sorted _ hc⟩
+    apply all_of_forall; intro a hm; simp only [decide_eq_true_eq]; exact ht a hm
+  refine ⟨hv, ?_⟩
+  unfold incInit
+  simp only [hv, Bool.not_true, Bool.false_eq_true, ite_false]
+  unfold incExport
+  simp only [fromList_sorted _ ha, fromList_sorted _ hi, fromList_sorted _ hc]
+
+/-- non-vacuity: NO reward period left in the parameters, accrual time, indexes and a claim still stored -/
+example : IncInv ⟨[], [(4, 1704070000)], [(4, [(1, 2500)])], [(9, ⟨[(1, 77)], [(4, [(1, 2000)])]⟩)]⟩ := by
+  refine ⟨by unfold Sorted; simp, by unfold Sorted; simp, by unfold Sorted; simp, ?_⟩
+  intro a ha; simp only [List.mem_cons, List.mem_nil_iff, or_false] at ha
+  subst ha; decide
+
+/-! ## hard -/
+
+theorem C14_hard_roundtrip (s : HardState) (h : HardInv s) :
+    hardValidate (hardExport s) = true ∧ hardInit (hardExport s) = some s := by
+  obtain ⟨hm, hmm, ha, hd, hb, hin, hdv, hbv⟩ := h
+  have hf : s.accrual.filter (fun a => s.markets.contains a.1) = s.accrual := filter_all _ _ hin
+  have hv : hardValidate (hardExport s) = true := by
+    unfold hardValidate hardExport
+    simp only [hf, Bool.and_eq_true]
+    exact ⟨⟨⟨⟨⟨hm, noDup_of_sorted _ ha⟩, noDup_of_sorted _ hd⟩, noDup_of_sorted _ hb⟩,
+      all_of_forall _ _ hdv⟩, all_of_forall _ _ hbv⟩
+  refine ⟨hv, ?_⟩
+  unfold hardInit
+  simp only [hv, Bool.not_true, Bool.false_eq_true, ite_false]
+  unfold hardExport
+  simp only [hf, fromList_sorted _ ha, fromList_sorted _ hd, fromList_sorted _ hb]
+  obtain ⟨m, mm, ac, dp, bw, ts, tb, tr⟩ := s
+  simp only at hmm
+  subst hmm; rfl
+
+example : HardInv ⟨[2, 5], [2, 5], [(2, ⟨1704070000, 1000000000000000000, 1020000000000000000⟩), (5, ⟨1704070000, 1003000000000000000, 1000000000000000000⟩)],
+    [(40, [(2, 10), (5, 7)])], [(40, [(5, 3)])], [(2, 10), (5, 7)], [(5, 3)], []⟩ := by
+  refine ⟨by decide, rfl, by unfold Sorted; simp, by unfold Sorted; simp, by unfold Sorted; simp, ?_, ?_, ?_⟩
+  · intro a ha; simp only [List.mem_cons, List.mem_nil_iff, or_false] at ha
+    rcases ha with rfl | rfl <;> decide
+  · intro d hd; simp only [List.mem_cons, List.mem_nil_iff, or_false] at hd
+    subst hd; decide
+  · intro d hd; simp only [List.mem_cons, List.mem_nil_iff, or_false] at hd
+    subst hd; decide
+
+/-- the hypothesis "accrual records only for listed markets" is needed, and it is NOT an invariant of the chain:
+    after governance delists market 5 (deposits and interest factors still stored) the export drops its accrual time
+    and interest factors, and the imported state differs from the exported one -/
+theorem C14_hard_delisted_market_lost :
+    let s : HardState := ⟨[2], [2, 5], [(2, ⟨100, 1000000000000000000, 1000000000000000000⟩), (5, ⟨100, 1003000000000000000, 1000000000000000000⟩)],
+      [(40, [(5, 7)])], [], [(5, 7)], [], []⟩
+    hardInit (hardExport s) = some ⟨[2], [2], [(2, ⟨100, 1000000000000000000, 1000000000000000000⟩)], [(40, [(5, 7)])], [], [(5, 7)], [], []⟩ ∧
+    hardInit (hardExport s) ≠ some s := by
+  decide
+
+/-! ## pricefeed -/
+
+/-- import at block time `now`: unexpired posts are kept exactly, expired ones are dropped (inert), and the current
+    prices are the aggregate of the unexpired posts of the ACTIVE markets — whatever the aggregate function -/
+theorem C14_pricefeed_import (agg : List Int → Option Int) (now : Int) (s : PfState) (h : Sorted s.posts) :
+    (pfInit agg now (pfExport s)).posts = livePosts now s.posts ∧
+    (pfInit agg now (pfExport s)).markets = s.markets ∧
+    (pfInit agg now (pfExport s)).current = currentOf agg s.markets (livePosts now s.posts) := by
+  have hl : Sorted (livePosts now s.posts) := by
+    unfold Sorted livePosts at *
+    exact h.sublist List.filter_sublist
+  unfold pfInit pfExport
+  simp only [fromList_sorted _ hl, and_self]
+
+/-- with no expired post and current prices as the begin/end blockers leave them for active markets, the round trip
+    is exact -/
+theorem C14_pricefeed_roundtrip (agg : List Int → Option Int) (now : Int) (s : PfState) (h : PfInv agg now s)
+    (hlive : ∀ x ∈ s.posts, now < x.2.expiry) : pfInit agg now (pfExport s) = s := by
+  obtain ⟨hs, hc⟩ := h
+  have hf : livePosts now s.posts = s.posts := by
+    unfold livePosts; apply filter_all; intro x hx; simp only [decide_eq_true_eq]; exact hlive x hx
+  obtain ⟨m, p, c⟩ := s
+  simp only at hf hc hs
+  rw [hf] at hc
+  unfold pfInit pfExport
+  simp only [hf, fromList_sorted _ hs, ← hc]
+
+/-- re-export after import = the export without the expired posts -/
+theorem C14_pricefeed_reexport (agg : List Int → Option Int) (now : Int) (s : PfState) (h : Sorted s.posts) :
+    pfExport (pfInit agg now (pfExport s)) = ⟨s.markets, livePosts now s.posts⟩ := by
+  have := C14_pricefeed_import agg now s h
+  unfold pfExport at *
+  simp only [this.1]
+  rfl
+
+/-- a DEACTIVATED market keeps its last current price in the store, but the import recomputes current prices for
+    active markets only: the frozen price does not survive export/import -/
+theorem C14_pricefeed_deactivated_price_lost :
+    let agg : List Int → Option Int := fun l => l.head?
+    let s : PfState := ⟨[(3, false)], [(301, ⟨3, 2000, 500⟩)], [(3, 2000)]⟩
+    pfInit agg 100 (pfExport s) = ⟨[(3, false)], [(301, ⟨3, 2000, 500⟩)], []⟩ ∧ pfInit agg 100 (pfExport s) ≠ s := by
+  decide
+
+/-! ## cdp -/
+
+theorem C14_cdp_roundtrip (s : CdpState) (h : CdpInv s) :
+    cdpValidate (cdpExport s) = true ∧ cdpInit (cdpExport s) = some s := by
+  obtain ⟨ht, hc, hd, hp, ha, hcv, hdv, hpv, hav, ho, hr⟩ := h
+  have hfp : s.principals.filter (fun a => s.types.contains a.1) = s.principals :=
+    filter_all _ _ (fun p hm => (hpv p hm).2)
+  have hfa : s.accum.filter (fun a => s.types.contains a.1) = s.accum := filter_all _ _ hav
+  have hv : cdpValidate (cdpExport s) = true := by
+    unfold cdpValidate cdpExport
+    simp only [hfp, hfa, Bool.and_eq_true]
+    refine ⟨⟨⟨⟨⟨⟨⟨ht, noDup_of_sorted _ hc⟩, noDup_of_sorted _ hd⟩, noDup_of_sorted _ hp⟩, noDup_of_sorted _ ha⟩, ?_⟩, ?_⟩, ?_⟩
+    · apply all_of_forall; intro c hm
+      have := hcv c hm
+      simp only [Bool.and_eq_true, decide_eq_true_eq]; exact ⟨⟨this.1, this.2.1⟩, this.2.2.1⟩
+    · apply all_of_forall; intro d hm; simp only [decide_eq_true_eq]; exact hdv d hm
+    · apply all_of_forall; intro p hm; simp only [decide_eq_true_eq]; exact (hpv p hm).1
+  refine ⟨hv, ?_⟩
+  unfold cdpInit
+  simp only [hv, Bool.not_true, Bool.false_eq_true, ite_false]
+  have hany : (cdpExport s).cdps.any (fun c => c.1 == (cdpExport s).nextId) = false := by
+    apply any_false_of_forall; intro c hm
+    have : c.1 ≠ s.nextId := (hcv c hm).2.2.2
+    simpa [cdpExport] using this
+  simp only [hany, Bool.false_eq_true, ite_false]
+  unfold cdpExport
+  simp only [hfp, hfa, fromList_sorted _ hc, fromList_sorted _ hd, fromList_sorted _ hp, fromList_sorted _ ha, ← ho, ← hr]
+
+/-- the owner index and the collateral-ratio index of the imported state are rebuilt from the cdps -/
+theorem C14_cdp_indexes_rebuilt (s s' : CdpState) (h : CdpInv s) (hi : cdpInit (cdpExport s) = some s') :
+    s'.ownerIndex = ownerIndexOf s.cdps ∧ s'.ratioIndex = ratioIndexOf s.cdps := by
+  rw [(C14_cdp_roundtrip s h).2] at hi
+  cases hi; exact ⟨h.2.2.2.2.2.2.2.2.2.1, h.2.2.2.2.2.2.2.2.2.2⟩
+
+example : CdpInv ⟨[1, 2], 9, [(1003, ⟨40, 1, 5000, 1000, 3⟩), (2007, ⟨41, 2, 900, 100, 0⟩)], [(300040, 5000), (700041, 900)],
+    [(1, 1003), (2, 100)], [(1, ⟨1704070000, 1000573959632388397⟩), (2, ⟨1704070000, 1000000000000000000⟩)],
+    [(40, 1003), (41, 2007)], [(1, 4985044865403788634, 1003), (2, 9000000000000000000, 2007)]⟩ := by
+  refine ⟨by decide, by unfold Sorted; simp, by unfold Sorted; simp, by unfold Sorted; simp, by unfold Sorted; simp,
+    ?_, ?_, ?_, ?_, by decide, by decide⟩
+  · intro c hc; simp only [List.mem_cons, List.mem_nil_iff, or_false] at hc
+    rcases hc with rfl | rfl <;> decide
+  · intro d hd; simp only [List.mem_cons, List.mem_nil_iff, or_false] at hd
+    rcases hd with rfl | rfl <;> decide
+  · intro p hp; simp only [List.mem_cons, List.mem_nil_iff, or_false] at hp
+    rcases hp with rfl | rfl <;> decide
+  · intro a ha; simp only [List.mem_cons, List.mem_nil_iff, or_false] at ha
+    rcases ha with rfl | rfl <;> decide
+
+/-- a cdp carrying the next id is refused by the import -/
+theorem C14_cdp_starting_id_taken_rejected :
+    cdpInit ⟨[1], 1003, [(1003, ⟨40, 1, 5000, 1000, 0⟩)], [], [(1, 1000)], [(1, ⟨100, 1000000000000000000⟩)]⟩ = none := by decide
 
 end KV.Gx
